@@ -43,6 +43,7 @@ adapter_linear = z3.Function("c17_adapter_is_linear", MdoFun, z3.BoolSort())
 adapter_dim = z3.Function("c17_adapter_input_dimension", MdoFun, INT)
 # input names of an opaque discipline (a grammar is seen through `name in grammar` / iteration only: its set of names)
 inputs_of = z3.Function("c17_inputs_of", ValS, z3.ArraySort(STR, z3.BoolSort()))
+outputs_of = z3.Function("c17_outputs_of", ValS, z3.ArraySort(STR, z3.BoolSort()))
 
 
 class _TMdoFun(T):
@@ -70,10 +71,11 @@ def _on(ex):
     return getattr(ex.contract, "c17b", False)
 
 
-def top_inputs_member(elems, n):
+def top_inputs_member(elems, n, names_of=None):
     """x is an input of one of the first n disciplines of the sequence (as a function of x)."""
     j = z3.Int("j!ti")
-    return lambda x: z3.Exists([j], z3.And(0 <= j, j < n, inputs_of(elems[j])[x]))
+    names_of = inputs_of if names_of is None else names_of
+    return lambda x: z3.Exists([j], z3.And(0 <= j, j < n, names_of(elems[j])[x]))
 
 
 class C17bModels:
@@ -125,8 +127,10 @@ class C17bModels:
             return NotImplemented
         if not (isinstance(node.elt, ast.Name) and node.elt.id == g1.target.id):
             return NotImplemented
-        if ast.unparse(g1.iter) != f"{g0.target.id}.io.input_grammar":
+        which = next((a for a in ("input_grammar", "output_grammar") if ast.unparse(g1.iter) == f"{g0.target.id}.io.{a}"), None)
+        if which is None:
             return NotImplemented
+        names_of = inputs_of if which == "input_grammar" else outputs_of
         st = ex.st
         outer = ex.ev(g0.iter)
         x = z3.Const("x!ui", STR)
@@ -134,9 +138,9 @@ class C17bModels:
             mems = []
             for d in outer:
                 if isinstance(d, SV) and d.ty.sort() == ValS:
-                    mems.append(inputs_of(d.term))
+                    mems.append(names_of(d.term))
                     continue
-                g = ex.get_attr(ex.get_attr(d, "io", node.lineno), "input_grammar", node.lineno)
+                g = ex.get_attr(ex.get_attr(d, "io", node.lineno), which, node.lineno)
                 o = st.heap[g.id] if isinstance(g, Ref) else None
                 if not isinstance(o, SetObj) or o.k != TStr:
                     raise Unsupported("input grammar that is not modelled by its set of names")
@@ -146,7 +150,7 @@ class C17bModels:
             o = st.heap[outer.id] if isinstance(outer, Ref) else None
             if not isinstance(o, ListObj) or o.t.sort() != ValS:
                 return NotImplemented
-            body = top_inputs_member(o.elems, o.n)(x)
+            body = top_inputs_member(o.elems, o.n, names_of)(x)
         member = st.fresh_const("all_inputs", z3.ArraySort(STR, z3.BoolSort()))
         st.assume(z3.ForAll([x], member[x] == body, patterns=[member[x]]))
         n = st.fresh_int("all_inputs_n")
@@ -235,3 +239,27 @@ class C17bInitModels:
             ex.assumed.add(f"opaque construction of {cv.qualname}: a new object, no effect on the formulation")
             return ref
         return NotImplemented
+
+    # MDF: the class-level MDA factory and its create(...)
+    def class_constant(self, ex, ci, name):
+        if getattr(ex.contract, "c17b_init", False) and ci.qualname == "gemseo.formulations.mdf.MDF" and name == "_MDF__mda_factory":
+            from .values import BuiltinV
+
+            return BuiltinV("c17.mda_factory")
+        return NotImplemented
+
+    def call_builtin(self, ex, name, args, kwargs, lineno, node=None):
+        if not (getattr(ex.contract, "c17b_init", False) and name == "c17.mda_factory.create"):
+            return NotImplemented
+        from . import contract as C
+
+        key = getattr(ex.contract, "c17b_mda_schema")
+        o = PyObj("gemseo.mda.base_mda.BaseMDA", {})
+        o.schema_key = key
+        ref = ex.st.alloc(o)
+        for f, t in C.class_schema(key).items():
+            o.fields[f] = t.fresh(ex.st, f"mda.{f}")
+        o.c17_created_from = list(args)
+        ex.assumed.add("model of MDAFactory.create(name, disciplines, settings_model=...): a new MDA with an arbitrary coupling structure and input grammar "
+                       "(the couplings of an MDA are those of its disciplines: C08), no effect on the formulation")
+        return ref
